@@ -1,11 +1,14 @@
 /-
 Property C12 — finite-element arrays compute the per-element, per-Gauss-point tensor
 operation.  Proof part: the closed-form Det / Inv / Trace formulas, the einsum subscripts
-of dot / ddot / TensorProd and the axis rule that decides whether a reduction keeps the
-(Ne, nPg) axes — all translated from /repo/EasyFEA/FEM/_linalg.py on every run.
+of dot / ddot / TensorProd, the axis rule that decides whether a reduction keeps the
+(Ne, nPg) axes, and the decision list of `FeArray.broadcast` (with a declared tensor rank a constant, a
+per-element and a full coefficient are told apart by their leading axes only, whatever sizes coincide)
+— all translated from /repo/EasyFEA/FEM/_linalg.py on every run.
 The alignment / dispatch behaviour on actual arrays is validated against explicit
 (e, p) loops by the correspondence harness.
 -/
+import EasyFEAVerif.Gen.C12.Broadcast
 import EasyFEAVerif.Core.PExprSound
 import EasyFEAVerif.Gen.C12.Linalg
 import Mathlib.LinearAlgebra.Matrix.Determinant.Basic
@@ -138,5 +141,97 @@ theorem keepsAxis_iff (a ndim : Int) (h1 : -ndim ≤ a) (h2 : a < ndim) :
   by_cases h : 0 ≤ a
   · simp [h]
   · simp [h]
+
+/-! ### coefficient broadcasting (`FeArray.broadcast`, decision list translated from the source) -/
+
+section broadcast
+open EasyFEAVerif.Broadcast
+
+theorem lead_append (l t : List Nat) : lead (l ++ t) t.length = l := by
+  simp [lead]
+theorem tail_append (l t : List Nat) : tail (l ++ t) t.length = t := by
+  simp [tail]
+
+/-- with a declared tensor rank the classification only looks at the leading axes -/
+theorem declared_classify (l t : List Nat) (Ne nPg : Nat) (ht : 0 < t.length) :
+    classify broadcastRules ⟨false, l ++ t⟩ Ne nPg t.length =
+      some (if l = [Ne, nPg] then .full else if l = [Ne] then .perElem else if l = [] then .const else .error) := by
+  simp only [classify, broadcastRules, List.find?, List.all_cons, List.all_nil, Bool.and_true, Cond.holds, lead_append, ht, decide_true]
+  by_cases h1 : l = [Ne, nPg]
+  · simp [h1]
+  · by_cases h2 : l = [Ne]
+    · simp [h2]
+    · by_cases h3 : l = []
+      · simp [h3]
+      · have e1 : (l == [Ne, nPg]) = false := by simpa using h1
+        have e2 : (l == [Ne]) = false := by simpa using h2
+        have e3 : (l == ([] : List Nat)) = false := by simpa using h3
+        simp [h1, h2, h3, e1, e2, e3]
+
+/-- **no ambiguity once the tensor rank is declared**: a constant tensor, a per-element tensor and a full field are told
+apart by their leading axes only — whatever the sizes of the tensor axes (`nPg = n`, `Ne = nPg = n`, …) -/
+theorem declared_unambiguous (t : List Nat) (Ne nPg : Nat) (ht : 0 < t.length) :
+    classify broadcastRules ⟨false, t⟩ Ne nPg t.length = some .const ∧
+    classify broadcastRules ⟨false, Ne :: t⟩ Ne nPg t.length = some .perElem ∧
+    classify broadcastRules ⟨false, Ne :: nPg :: t⟩ Ne nPg t.length = some .full := by
+  refine ⟨?_, ?_, ?_⟩
+  · have := declared_classify [] t Ne nPg ht
+    simpa using this
+  · have := declared_classify [Ne] t Ne nPg ht
+    simpa using this
+  · have := declared_classify [Ne, nPg] t Ne nPg ht
+    simpa using this
+
+/-- … and the result always has the shape `(Ne, nPg) + tail` -/
+theorem declared_shape (t : List Nat) (Ne nPg : Nat) (ht : 0 < t.length) :
+    resultShape .const t Ne nPg t.length = some ([Ne, nPg] ++ t) ∧
+    resultShape .perElem (Ne :: t) Ne nPg t.length = some ([Ne, nPg] ++ t) ∧
+    resultShape .full (Ne :: nPg :: t) Ne nPg t.length = some ([Ne, nPg] ++ t) := by
+  have h0 : t.length ≠ 0 := by omega
+  refine ⟨?_, ?_, ?_⟩
+  · have := tail_append [] t
+    simp only [List.nil_append] at this
+    simp [resultShape, h0, this]
+  · simp [resultShape]
+  · simp [resultShape]
+
+/-- any other leading shape is rejected when the rank is declared -/
+theorem declared_rejects (l t : List Nat) (Ne nPg : Nat) (ht : 0 < t.length) (h1 : l ≠ [Ne, nPg]) (h2 : l ≠ [Ne]) (h3 : l ≠ []) :
+    classify broadcastRules ⟨false, l ++ t⟩ Ne nPg t.length = some .error := by
+  rw [declared_classify l t Ne nPg ht]; simp [h1, h2, h3]
+
+/-- the colliding sizes of TRI6 in 2D (nPg = nstrain = 3): a per-element Hooke matrix (7, 3, 3) is read per element -/
+example : classify broadcastRules ⟨false, [7, 3, 3]⟩ 7 3 2 = some .perElem ∧ classify broadcastRules ⟨false, [3, 3]⟩ 3 3 2 = some .const := by
+  decide
+
+/-- without a declared rank the documented priority applies: Python number, then full field, then `(Ne,)`, then `(nPg,)`, then a constant -/
+theorem undeclared_classify (shape : List Nat) (Ne nPg : Nat) :
+    classify broadcastRules ⟨false, shape⟩ Ne nPg 0 =
+      some (if shape.take 2 = [Ne, nPg] then .full
+            else if shape = [Ne] then .perElem
+            else if shape = [nPg] then .perPoint else .const) := by
+  simp only [classify, broadcastRules, List.find?, List.all_cons, List.all_nil, Bool.and_true, Cond.holds, Nat.lt_irrefl, decide_false,
+    Bool.false_and]
+  by_cases h1 : shape.take 2 = [Ne, nPg]
+  · simp [h1]
+  · have e1 : (shape.take 2 == [Ne, nPg]) = false := by simpa using h1
+    match shape, h1, e1 with
+    | [], _, _ => simp
+    | [a], _, _ =>
+      by_cases ha : a = Ne
+      · simp [ha]
+      · have ea : (a == Ne) = false := by simpa using ha
+        by_cases hb : a = nPg
+        · subst hb; simp [ha, ea]
+        · have eb : (a == nPg) = false := by simpa using hb
+          simp [ha, hb, ea, eb]
+    | a :: b :: r, h1, e1 =>
+      simp only [List.take] at e1 h1
+      simp [e1, h1]
+
+theorem scalar_classify (shape : List Nat) (Ne nPg tn : Nat) : classify broadcastRules ⟨true, shape⟩ Ne nPg tn = some .scalar := by
+  simp [classify, broadcastRules, Cond.holds]
+
+end broadcast
 
 end EasyFEAVerif.Props.C12
